@@ -60,6 +60,31 @@ PROPS = {
                 "a user without open positions has no weight history / cursor",
     },
 
+    "C01": {
+        "module": "MantraDex.Properties.C01", "ns": "MantraDex.C01",
+        "theorems": ["swap_conserves", "route_conserves", "withdraw_conserves", "provide_multi_conserves", "single_first_leg_conserves",
+                     "create_pool_conserves_partial", "config_conserves_partial", "bank_send_effect"],
+        "streams": {"pm_hist": (80, 4000), "faults": (30, 1500)},
+        "what": "handler-level conservation law of the pool manager for every non-LP token: reserves' + outflow(messages) = reserves + inflow(funds) "
+                "for swap, routed swap (any length), withdraw, multi-asset deposit, pool creation (keeps nothing), config/ownership; the single-asset "
+                "first leg leaves reserves untouched and forwards exactly floor(a/2) to a self-call; a bank send moves exactly the listed coins. "
+                "Together with the bank semantics this makes balance - reserves invariant under every pool operation",
+        "assumptions": ["the lift through the runtime to whole transactions (incl. the cross-contract locked / single-asset paths) is validated by the "
+                        "custody + excess monitors on every step of the history and fault streams, not proved",
+                        "create_pool law needs creation fee + token-factory fee not to overflow u128 (proved counterexample otherwise); config law needs unique pool ids"],
+    },
+    "C14": {
+        "module": "MantraDex.Properties.C14", "ns": "MantraDex.C14",
+        "theorems": ["single_refused_on_empty_or_larger_pool", "single_cannot_lock_for_other", "multi_cannot_lock_for_other",
+                     "lock_into_position_requires_ownership", "first_leg_shape", "reply_shape", "buffer_only_set_by_first_leg"],
+        "streams": {"pm_hist": (80, 4000), "twin": (60, 3000), "faults": (30, 1500)},
+        "what": "single-asset deposits are refused on empty / larger pools; neither path can lock LP for someone other than the sender and an existing "
+                "position must belong to the receiver; first leg = simulate, buffer (expected balances, options), swap exactly floor(a/2) via a "
+                "reply-on-success self-call; reply = both balances must match, buffer cleared, deposit of half + simulated proceeds with the recorded "
+                "options as a plain self-call; no other handler sets the buffer",
+        "assumptions": ["equality with the manual swap-then-deposit run is validated by the twin-deployment stream (mon_twin_c14), not proved; all-or-nothing is C20"],
+    },
+
     "C03": {
         "module": "MantraDex.Properties.C03", "ns": "MantraDex.C03",
         "theorems": ["cp_gross_formula", "cp_swap_k_mono", "performSwap_k_mono", "cp_round_trip_no_profit", "ss_swap_D_witness"],
